@@ -17,6 +17,7 @@ from common import *
 
 FUEL_TREE = 1200          # refinement depth bound given to the model (doubles: < 1100 halvings)
 F17 = "F17:tree-merge-flagged-particle-lingers"
+F17R = "F17:restart-with-flagged-particle-crashes"
 F18 = "F18:particle-on-upper-box-face-dropped-from-tree"
 
 _rebound = None
@@ -167,6 +168,7 @@ def gen_config(rng, kind="sim", allow_face=True):
                 resolve=resolve, dt=d2h(dt), omega=d2h(rng.uniform(0.2, 2.0)), t0=d2h(rng.uniform(0, 50.0)),
                 steps=rng.randint(8, 60), parts=parts, seed=rng.next() & 0xFFFFFFFF,
                 upd_every=rng.choice([1, 1, 1, 2, 3]), posmode=posmode, face=face,
+                restart_at=(rng.randint(1, 12) if rng.chance(0.35) else 0), restart_kind=rng.choice(["copy", "file"]),
                 theta2=d2h(rng.choice([0.0, 0.25, 1.0])))
 
 
@@ -457,6 +459,24 @@ def inside_box(cfg, p, slack=0.0):
     return all(-(rs * n) / 2. * (1 + slack) <= p[a] <= (rs * n) / 2. * (1 + slack) for a, n in (("x", nx), ("y", ny), ("z", nz)))
 
 
+def restart(sim, cfg):
+    if cfg["restart_kind"] == "copy":
+        s2 = sim.copy()
+    else:
+        fd, fn = tempfile.mkstemp(prefix="c15.", suffix=".bin", dir=os.environ.get("VERIF_TMP", "/tmp"))
+        os.close(fd)
+        try:
+            sim.save_to_file(fn, delete_file=True)
+            s2 = _rebound.Simulation(fn)
+        finally:
+            if os.path.exists(fn):
+                os.remove(fn)
+    s2.collision_resolve = cfg["resolve"]      # function pointers are not part of the saved state
+    s2.save_messages = 1
+    messages(s2)
+    return s2
+
+
 def run_sim(cfg, out, model_budget):
     """random run of the real code; the property is evaluated after every step"""
     rs, nx, ny, nz = box_of(cfg)
@@ -479,6 +499,25 @@ def run_sim(cfg, out, model_budget):
     removed_total = 0
     crossings = 0
     for step in range(1, cfg["steps"] + 1):
+        if step == cfg.get("restart_at", 0) and sim.N > 0:
+            # the run is continued from a copy / from a file: the tree has to be there again
+            if any(not p["y"] == p["y"] for p in get_parts(sim)) and _marker[0]:
+                # F17 state at the step boundary: if the restart now crashes the parent can tell why
+                with open(_marker[0], "w") as f:
+                    f.write("restart-with-flagged-particle")
+                out.inc("restarts_with_flagged_particle")
+            sim = restart(sim, cfg)
+            if _marker[0] and os.path.exists(_marker[0]):
+                os.remove(_marker[0])
+            out.inc("restarts")
+            if tree_on:
+                _clib.reb_boundary_check(ctypes.byref(sim))
+                _clib.reb_simulation_update_tree(ctypes.byref(sim))
+                if sim.N > 0:
+                    evaluate_tree(cfg, sim, out, "after restart (%s) before step %d + tree update" % (cfg["restart_kind"], step), model_budget[0] > 0, step)
+                    model_budget[0] -= 1
+                if any(v[0] != F17 for v in out.viol):
+                    break
         before = {p["h"]: p for p in get_parts(sim)}
         _clib.reb_simulation_step(ctypes.byref(sim))
         ms = messages(sim)
@@ -702,8 +741,12 @@ def run_boundary(cfg, rows, out, with_tree):
 
 
 # ----------------------------------------------------------------------------- forked workers
+_marker = [None]
+
+
 def worker(job, path):
     out = Out()
+    _marker[0] = path + ".marker"
     try:
         kind = job["kind"]
         if kind == "sim":
@@ -799,6 +842,8 @@ def run_jobs(c, jobs, par=4, timeout=120):
             del running[pid]
             if os.WIFSIGNALED(status) or not os.path.exists(path):
                 results[j] = dict(crash=os.WTERMSIG(status) if os.WIFSIGNALED(status) else -1)
+                if os.path.exists(path + ".marker"):
+                    results[j]["marker"] = open(path + ".marker").read()
             else:
                 with open(path) as f:
                     results[j] = json.load(f)
@@ -830,7 +875,7 @@ def run(c):
         "tree/line-tree collisions (hard sphere or merge), N 1..600, positions uniform / clustered to 1e-9 of a root box / on dyadic cell faces / "
         "exactly on or one ulp from box faces, velocities 0.1..8 root boxes per step.  (a) fresh: real tree after adding all particles "
         "vs model, cell by cell, bitwise, before and after the gravity-data update; (b) boundary: reb_boundary_check called on particles displaced "
-        "up to 25 box lengths, model bitwise + exact rational oracle, then the tree update re-inserting all of them; (c) runs of 8-60 steps: after each "
+        "up to 25 box lengths, model bitwise + exact rational oracle, then the tree update re-inserting all of them; (c) runs of 8-60 steps (a third of them continued from sim.copy() or a saved file at a random step): after each "
         "step flags/box membership/identity/straight-line shadow, after each tree update leaf bijection, containment, counts, back pointers, mass and "
         "centre of mass, and the updated tree vs a fresh model build of the current array.  distinct_nontrivial = distinct (boundary, gravity, collision, "
         "resolve, root layout, N class) with N>=2")
@@ -889,7 +934,10 @@ def run(c):
                 what = "the real code %s on a generated %s case" % ("crashed (signal %s)" % res.get("crash") if res.get("crash") is not None else "did not return within the time limit", job["kind"])
                 cf = job["cfg"]
                 f18 = cf.get("face") and (job["kind"] == "boundary" or any_f18(cf))
-                c.violation(F18 if f18 else ("crash" if res.get("crash") is not None else "hang"), what, job)
+                if res.get("marker") == "restart-with-flagged-particle":
+                    c.violation(F17R, what + " while copying / reloading a simulation that holds a particle flagged for removal", job)
+                else:
+                    c.violation(F18 if f18 else ("crash" if res.get("crash") is not None else "hang"), what, job)
                 continue
             for k, v in res["counts"].items():
                 st["totals"][k] = st["totals"].get(k, 0) + v
